@@ -1,25 +1,10 @@
-(* C20/PyLib.v -- the target vocabulary of harness/props/c20_translate.py.
-   Each definition gives the meaning of ONE Python construct of the supported
-   subset (CPython 3 semantics), on the representations
-     int -> Z     bool -> bool     str -> list Z (code points)
-     list[T] -> list T     dict[K, V] -> list (K * V) in insertion order
-     "any object" -> pyobj     exceptions -> Common.Err.res
-   A one-character string is a str of length 1 (Python has no char type): the
-   elements of list("ab") and the items of a `for c in "ab"` are [97] and [98].
-   This file is part of the trusted base of the translated theorems.
-   No proofs here (lemmas: PyLibLemmas.v). *)
+(* C20/PyLib.v -- C20's part of the translator vocabulary: the standard-library record of
+   ak/short_uuid.py.  Everything generic lives in Common/PyLib.v (re-exported here). *)
 From Coq Require Import ZArith List Bool.
+From AK Require Export Common.PyLib.
 From AK Require Import Common.Sx Common.Err.
 Import ListNotations.
 Open Scope Z_scope.
-
-(* an argument of unknown type: all the subset can do with it is isinstance(_, str) *)
-Inductive pyobj := PyStr (s : list Z) | PyOther.
-
-(* how a block containing `return` ends: with the function's result, or normally *)
-Inductive flow (R S : Type) : Type := Return (r : R) | Next (s : S).
-Arguments Return {R S} r.
-Arguments Next {R S} s.
 
 (* what the module imports from the standard library (module uuid).  Every
    translated function takes such a record as its first parameter. *)
@@ -29,104 +14,3 @@ Record uuid_lib : Type := {
   UUID_of_str : list Z -> res UUID;          (* uuid.UUID(s), s a str *)
   UUID_int : UUID -> Z                       (* u.int *)
 }.
-
-(* ---- truth values, numbers ---- *)
-Definition py_truthy_int (n : Z) : bool := negb (n =? 0).
-Definition py_truthy_list {A} (l : list A) : bool := match l with [] => false | _ :: _ => true end.
-
-(* //, %, divmod: floor division, remainder with the sign of the divisor (= Z.div / Z.modulo);
-   ZeroDivisionError has no code of its own in Common/Err.v *)
-Definition py_floordiv (a b : Z) : res Z := if b =? 0 then Err OtherErr else Ok (a / b).
-Definition py_mod (a b : Z) : res Z := if b =? 0 then Err OtherErr else Ok (a mod b).
-Definition py_divmod (a b : Z) : res (Z * Z) := if b =? 0 then Err OtherErr else Ok (a / b, a mod b).
-
-(* ---- sequences ---- *)
-Definition py_len {A} (l : list A) : Z := Z.of_nat (length l).
-Definition py_chars (s : list Z) : list (list Z) := map (fun c => [c]) s.   (* list(s), iter(s) *)
-Definition py_join (sep : list Z) (parts : list (list Z)) : list Z :=
-  match parts with
-  | [] => []
-  | p :: r => p ++ flat_map (fun q => sep ++ q) r
-  end.
-Definition py_str_mul (s : list Z) (n : Z) : list Z := concat (repeat s (Z.to_nat n)).   (* n <= 0 gives "" *)
-
-Fixpoint py_str_eqb (a b : list Z) : bool :=
-  match a, b with
-  | [], [] => true
-  | x :: a', y :: b' => (x =? y) && py_str_eqb a' b'
-  | _, _ => false
-  end.
-
-(* seq[i]: negative i counts from the end, IndexError outside *)
-Definition py_index_pos (len i : Z) : option nat :=
-  let j := if i <? 0 then i + len else i in
-  if (0 <=? j) && (j <? len) then Some (Z.to_nat j) else None.
-Definition py_list_get {A} (l : list A) (i : Z) : res A :=
-  match py_index_pos (py_len l) i with
-  | Some k => match nth_error l k with Some x => Ok x | None => Err IndexErr end
-  | None => Err IndexErr
-  end.
-Definition py_str_get (s : list Z) (i : Z) : res (list Z) :=
-  match py_list_get s i with Ok c => Ok [c] | Err e => Err e end.
-
-(* seq[lo:hi] (step 1), bounds clamped as Python does; None = omitted *)
-Definition py_clamp (len : Z) (i : option Z) (dflt : Z) : Z :=
-  match i with
-  | None => dflt
-  | Some i => let j := if i <? 0 then i + len else i in Z.max 0 (Z.min len j)
-  end.
-Definition py_slice {A} (l : list A) (lo hi : option Z) : list A :=
-  let n := py_len l in
-  let a := py_clamp n lo 0 in
-  let b := py_clamp n hi n in
-  firstn (Z.to_nat (b - a)) (skipn (Z.to_nat a) l).
-
-Definition py_range (lo hi : Z) : list Z := map (fun k => lo + Z.of_nat k) (seq 0 (Z.to_nat (hi - lo))).
-
-Fixpoint py_enumerate_from {A} (start : Z) (l : list A) : list (Z * A) :=
-  match l with
-  | [] => []
-  | x :: r => (start, x) :: py_enumerate_from (start + 1) r
-  end.
-
-(* x in seq, seq.index(x) (first position, ValueError when absent) *)
-Definition py_in {A} (eqb : A -> A -> bool) (x : A) (l : list A) : bool := existsb (eqb x) l.
-Fixpoint py_list_index_from {A} (eqb : A -> A -> bool) (x : A) (l : list A) (pos : Z) : res Z :=
-  match l with
-  | [] => Err ValueErr
-  | y :: r => if eqb y x then Ok pos else py_list_index_from eqb x r (pos + 1)
-  end.
-Definition py_list_index {A} (eqb : A -> A -> bool) (l : list A) (x : A) : res Z := py_list_index_from eqb x l 0.
-
-(* str.rjust / str.ljust (TypeError unless the fill is one character),
-   str.strip / lstrip / rstrip with an explicit set of characters *)
-Definition py_rjust (s : list Z) (w : Z) (fill : list Z) : res (list Z) :=
-  match fill with [c] => Ok (repeat c (Z.to_nat (w - py_len s)) ++ s) | _ => Err TypeErr end.
-Definition py_ljust (s : list Z) (w : Z) (fill : list Z) : res (list Z) :=
-  match fill with [c] => Ok (s ++ repeat c (Z.to_nat (w - py_len s))) | _ => Err TypeErr end.
-Fixpoint py_lstrip (s chars : list Z) : list Z :=
-  match s with
-  | [] => []
-  | c :: r => if existsb (Z.eqb c) chars then py_lstrip r chars else s
-  end.
-Definition py_rstrip (s chars : list Z) : list Z := rev (py_lstrip (rev s) chars).
-Definition py_strip (s chars : list Z) : list Z := py_rstrip (py_lstrip s chars) chars.
-
-(* ---- dict as the list of (key, value) in insertion order; a later pair with
-   the same key wins (dict(pairs), dict comprehension); d[k] raises KeyError *)
-Fixpoint py_dict_find {K V} (eqb : K -> K -> bool) (d : list (K * V)) (k : K) (found : option V) : option V :=
-  match d with
-  | [] => found
-  | (k', v) :: r => py_dict_find eqb r k (if eqb k' k then Some v else found)
-  end.
-Definition py_dict_get {K V} (eqb : K -> K -> bool) (d : list (K * V)) (k : K) : res V :=
-  match py_dict_find eqb d k None with Some v => Ok v | None => Err KeyErr end.
-Definition py_dict_has {K V} (eqb : K -> K -> bool) (d : list (K * V)) (k : K) : bool :=
-  match py_dict_find eqb d k None with Some _ => true | None => false end.
-
-(* ---- objects, exceptions ---- *)
-Definition py_isinstance_str (o : pyobj) : bool := match o with PyStr _ => true | PyOther => false end.
-
-(* except (C1, C2, ...): does the clause catch e?  (running out of fuel is not an exception) *)
-Definition py_catches (classes : list err) (e : err) : bool :=
-  match e with Hang => false | _ => existsb (err_eqb e) classes end.
